@@ -128,6 +128,26 @@ def runtime_table_integrity(cov, fail):
                            mac=('hmac-sha2-256-etm@openssh.com', 'hmac-sha1'), banner=b'SSH-2.0-OpenSSH_8.0',
                            hostkeys={'rsa-sha2-512': fn.rsa_blob(1024), 'ssh-rsa': fn.rsa_blob(1024), 'ssh-ed25519': fn.ed25519_blob()},
                            gex=lambda mn, pf, mx: 1024 if mx < 2048 else 2048)
+    # servers presenting broken-primitive host keys of unusual sizes (DSA with a 2048 / 3072-bit modulus, 4096-bit ssh-rsa): whatever a scan adds to the
+    # entries it rates, an entry the database brands as broken must still carry a failure in the copy the report reads, and the report must show it
+    odd = [fn.simple_server(kex=('curve25519-sha256', 'diffie-hellman-group1-sha1'), key=('ssh-dss', 'ssh-rsa', 'ssh-ed25519'), enc=('aes256-ctr', '3des-cbc', 'arcfour'),
+                            mac=('hmac-sha2-256', 'hmac-md5', 'hmac-sha1'), hostkeys={'ssh-dss': fn.dss_blob(b), 'ssh-rsa': fn.rsa_blob(4096), 'ssh-ed25519': fn.ed25519_blob()})
+           for b in (1024, 2048, 3072)]
+    for k, osrv in enumerate(odd):
+        SSH2_KexDB.thread_exit()
+        code, out = fn.run_main(['-n', '--skip-rate-test', '10.3.3.4'], fn.FakeNet({'10.3.3.4': osrv}), fresh=False)
+        cov.add(('runtime-broken-primitives', k), True, tags=['runtime-integrity'])
+        live = SSH2_KexDB.get_db()
+        for c, ents in live.items():
+            for n, desc in ents.items():
+                if mentions_broken(n) and fails_of(snap2[c][n]) and not fails_of(desc):
+                    fail('broken_primitive_loses_failure_at_runtime', 'per-thread database after an audit', '%s/%s' % (c, n), desc, 'still carries a failure: %r' % fails_of(snap2[c][n]))
+        for line in out.split('\n'):
+            if line.startswith(('(kex) ', '(key) ', '(enc) ', '(mac) ')) and '-- [' in line:
+                c, n = line[1:4], line[6:].split(' ')[0]
+                if n in snap2.get(c, {}) and mentions_broken(n) and fails_of(snap2[c][n]) and '[fail]' not in line:
+                    fail('broken_primitive_loses_failure_at_runtime', 'report line', '%s/%s' % (c, n), line.strip(), 'a [fail] finding')
+        SSH2_KexDB.thread_exit()
     for args in (['-n', '--skip-rate-test'], ['-n', '--skip-rate-test', '-j']):
         fn.run_main(args + ['10.3.3.3'], fn.FakeNet({'10.3.3.3': srv}), fresh=False)
         cov.add(('runtime-integrity', tuple(args)), True, tags=['runtime-integrity'])
